@@ -152,6 +152,8 @@ def sig_c15(rec):
     case = rec.get("case") or {}
     if rec.get("family") == "rewrite":
         return "rewrite:%s %s" % ("|".join(case.get("rules") or []), case.get("path"))
+    if rec.get("family") == "respond":
+        return "respond:%s age=%s %s" % (case.get("origin_headers"), case.get("measured_age"), case.get("label"))
     return "proxy:%s %s?%s [%s] %s" % (case.get("method"), case.get("path"), case.get("query"), case.get("label"), "|".join(case.get("client_headers") or []))[:200]
 
 
@@ -175,7 +177,8 @@ PROPS = {
     },
     "C15": {
         "families": {"proxy": {"quick": 400, "thorough": 8000, "search": 2000},
-                     "rewrite": {"quick": 600, "thorough": 20000, "search": 3000}, "edge": {"quick": 2, "thorough": 40, "search": 6, "no_cases": True}},
+                     "rewrite": {"quick": 600, "thorough": 20000, "search": 3000},
+                     "respond": {"quick": 400, "thorough": 10000, "search": 2000}, "edge": {"quick": 2, "thorough": 40, "search": 6, "no_cases": True}},
         "signature": sig_c15,
         "trusted_base": [
             "model coq/Model/Proxy.v is hand-written from server/proxy.go (NewProxy) and location.go (AddRequestHeader/AddResponseHeader/AddQuery); tied by the proxy family (real middleware, real elton proxy + net/http transport, recording origin)",
